@@ -4,9 +4,9 @@ does with its arguments *around* the simulation proper:
 
   run                      -> `run`  = `precheck` ; (simulation, a parameter) ; `normalise` ; `measurement`
   _perform_simulation      -> only its accumulation `r_sum += shot ; r_mean = r_sum / shots` (`meanOfShots`)
-  _process_layout          -> `processLayout`
+  _process_layout          -> `processLayout` (= `layoutLoop`, then `used_q.sort()` = `sortAsc`)
   "None qubit measured"    -> second step of `precheck`
-  _validate_input_of_run   -> `validate` (the code after repair D20) and `validateUnrepaired` (the pinned tree)
+  _validate_input_of_run   -> `validate` (the code, which since repair D20 type-checks psi0) and `validateUnrepaired` (before D20)
   r / Σ r, assert Σ r > 0  -> `normalise`
   _measurament             -> `measurement`
 
@@ -112,8 +112,24 @@ def stepLayout (st : List Nat × List (Nat × Nat)) : Instr → List Nat × List
   | .gate _ => st                                  -- 0 or ≥ 3 qubits (wide barrier): nothing recorded
   | .measure q c => (addUsed st.1 q, st.2 ++ [(q, c)])
 
-/-- `_process_layout`: `(used_q, measure_qc)`; `n_qubit = len(used_q)` -/
-def processLayout (data : List Instr) : List Nat × List (Nat × Nat) := data.foldl stepLayout ([], [])
+/-- the loop of `_process_layout`: used qubits in order of first touch, measure instructions in order -/
+def layoutLoop (data : List Instr) : List Nat × List (Nat × Nat) := data.foldl stepLayout ([], [])
+
+/-- insertion into an ascending list -/
+def insertAsc (q : Nat) : List Nat → List Nat
+  | [] => [q]
+  | x :: xs => if q ≤ x then q :: x :: xs else x :: insertAsc q xs
+
+/-- `used_q.sort()`: ascending (the entries are pairwise distinct, so stability plays no role) -/
+def sortAsc : List Nat → List Nat
+  | [] => []
+  | x :: xs => insertAsc x (sortAsc xs)
+
+/-- `_process_layout`: `(used_q, measure_qc)` with `used_q` sorted ascending after the loop (repair D6: the circuit
+classes and the tensor factors of `psi0` are ordered by ascending qubit index); `n_qubit = len(used_q)` -/
+def processLayout (data : List Instr) : List Nat × List (Nat × Nat) :=
+  let st := layoutLoop data
+  (sortAsc st.1, st.2)
 
 /-! ## `_validate_input_of_run` as an ordered decision list -/
 
